@@ -29,6 +29,29 @@ var families = map[string]func(r *rand.Rand, i int) *Program{
 	"burst":     genBurst,
 	"bigbatch":  genBigBatch,
 	"reap":      genReap,
+	"eqprio":    genEqPrio,
+}
+
+// eqprio: limit 1, one queue, producers submitting jobs of few distinct priorities while the worker
+// is dispatching: submissions of one thread with equal priority must start in submission order.
+func genEqPrio(r *rand.Rand, i int) *Program {
+	g := &gen{r: r}
+	p := &Program{Kind: kinds(r), Conc: 1, Queues: []string{[]string{"prio", "prio", "fifo"}[r.Intn(3)]}, WFYields: 4 + r.Intn(20)}
+	nt := 1 + r.Intn(2)
+	for t := 0; t < nt; t++ {
+		var th []Op
+		for j := 0; j < 3+r.Intn(3); j++ {
+			a := g.add()
+			a.Prio = r.Intn(2)
+			th = append(th, a)
+			if r.Intn(4) == 0 {
+				th = append(th, Op{Op: "yield"})
+			}
+		}
+		p.Threads = append(p.Threads, th)
+	}
+	p.Threads[0] = append(p.Threads[0], Op{Op: "wuf"})
+	return p
 }
 
 // reap: the idle-worker reaper against the dispatcher: several workers become idle, time passes
@@ -117,6 +140,7 @@ func genPersist(r *rand.Rand, i int) *Program {
 		p.Preload = append(p.Preload, j)
 		if r.Intn(5) == 0 {
 			p.BadEntry = append(p.BadEntry, j)
+			p.BadKinds = append(p.BadKinds, r.Intn(6))
 		}
 	}
 	for j := 0; j < 8; j++ {
@@ -138,6 +162,7 @@ func genCrash(r *rand.Rand, i int) *Program {
 	p := genPersist(r, i)
 	p.Faults = nil
 	p.BadEntry = nil
+	p.BadKinds = nil
 	p.Outcomes = nil
 	p.CrashAt = 1 + r.Intn(14)
 	return p
@@ -158,6 +183,13 @@ func genDist(r *rand.Rand, i int) *Program {
 	}
 	if r.Intn(5) == 0 {
 		p.Faults = append(p.Faults, Fault{Op: "deq", Nth: 1 + r.Intn(3)})
+	}
+	if r.Intn(4) == 0 {
+		// only what the adapter already holds when the consumers bind: nobody announces anything later
+		if len(p.Preload) == 0 {
+			p.Preload = []int{0, 1}
+		}
+		p.Threads = [][]Op{{{Op: "counts"}}}
 	}
 	return p
 }
